@@ -7,7 +7,7 @@ import math
 from ..facets.pred import Pred
 from ..ir import walk
 from ..loader import AnalysisError
-from .common import ATM_MOD, CONST_MOD, PRESS_MOD, is_ext_call, scatter_chain
+from .common import call_args, ATM_MOD, CONST_MOD, PRESS_MOD, is_ext_call, scatter_chain
 
 EXPLANATION = (
     "Decided: R19.1 the two shipped copies of each conversion have identical operation graphs (after "
@@ -158,6 +158,77 @@ def run(ck, ctx):
                   (a.op == "Const" and g.same(a, b)), a,
                   "<module>", (a.extra or {}).get("global", g.show(a, 1)))
     ck.guard(r191, "R19.1")
+
+    # ---------------------------------------------------------------- R19.5 working precision
+    def r195():
+        """The inverses agree to 1e-6 km / 1e-6 relative only in double precision (float32 resolves 6e-8 relative,
+        i.e. 6e-6 km at 100 km): no value on the way to the result is cast to a narrower type."""
+        NARROW = {"numpy.single", "numpy.float32", "numpy.float16", "numpy.half", "numpy.int32", "numpy.int64",
+                  "numpy.int16", "numpy.int8", "numpy.intp", "numpy.int_", "builtins.int", "builtins.round",
+                  "numpy.rint", "numpy.round", "numpy.around", "numpy.floor", "numpy.ceil", "numpy.trunc", "numpy.fix"}
+
+        def value_cone(root):
+            """nodes whose value flows into root (not the masks / indices that only select)"""
+            out, seen, stack = [], set(), [root]
+            while stack:
+                n = stack.pop()
+                if n.id in seen:
+                    continue
+                seen.add(n.id)
+                out.append(n)
+                if n.op == "Subscript":
+                    stack.append(n.args[0])
+                    if n.args[0].id in {t.id for t in tables.values()}:
+                        continue            # table[layer index]: the index selects
+                elif n.op == "Scatter":
+                    stack += [n.args[0], n.args[2]]
+                elif n.op == "Phi":
+                    stack += [n.args[1], n.args[2]]
+                elif is_ext_call(n, "numpy.where") and len(n.args) == 4:
+                    stack += [n.args[2], n.args[3]]
+                else:
+                    stack += list(n.args)
+            return out
+
+        def narrow_dtype(n):
+            n_ = n
+            if n_ is None:
+                return None
+            if n_.op == "Ext" and n_.attr in NARROW:
+                return n_.attr
+            if n_.op == "Const" and isinstance(n_.attr, str) and n_.attr.lower() in (
+                    "float32", "f4", "single", "float16", "f2", "half", "int", "int32", "int64", "i4", "i8", "<f4"):
+                return n_.attr
+            return None
+        for fname in FUNCS:
+            if fname not in results:
+                continue
+            x, vals = results[fname]
+            for mod, fi, r in vals:
+                tag = f"{fname} [{mod.split('.')[-1]}]"
+                hits = []
+                for n in value_cone(r.value):
+                    if n.op == "Call" and n.args and n.args[0].op == "Ext":
+                        q = n.args[0].attr
+                        if q in NARROW and len(n.args) >= 2:
+                            hits.append((n, q))
+                        _pos, kws = call_args(n)
+                        nd = narrow_dtype(kws.get("dtype"))
+                        if nd:
+                            hits.append((n, f"dtype={nd}"))
+                    elif n.op == "MCall" and n.attr[0] in ("astype", "view") and len(n.args) >= 2:
+                        nd = narrow_dtype(n.args[1])
+                        if nd:
+                            hits.append((n, f"astype({nd})"))
+                for n, what in hits[:3]:
+                    ck.ob("R19.5", f"{tag}: no value on the way to the result is narrowed [{what} at {n.where()}]", False,
+                          n, fname, "a result rounded to less than double precision cannot invert to 1e-6 km / 1e-6 "
+                          "relative (float32 resolves 6e-8 relative: 6e-6 km at 100 km)",
+                          construct=f"{fname}: result narrowed by {what}")
+                ck.ob("R19.5", f"{tag}: the result is computed and returned in the working precision of its input "
+                      "(no narrowing cast or rounding on the value path)", not hits, r.value, fname,
+                      f"{len(hits)} narrowing operation(s)")
+    ck.guard(r195, "R19.5")
 
     # ---------------------------------------------------------------- R19.2 layer index consistency
     def r192():
